@@ -124,6 +124,9 @@ def case(ctx, i, tier):
                 x[0] == y[0] and same(x[1], y[1]) and same(x[2], y[2]) for x, y in zip(h, mm["hist"]))
             okh = okh and len(lob.history["mid_price"]) == len(h)
             ctx.check("C14:history", okh, symbol=s_, got=len(h), want=len(mm["hist"]))
+            tiny = rng.choice([1e-8, 1e-9, 1e-12, 5e-324])
+            ctx.check("C14:sides", same(lob.acq_price(tiny), mm["ask"]) and same(lob.acq_price(-tiny), mm["bid"])
+                      and same(lob.liq_price(tiny), mm["bid"]) and same(lob.liq_price(-tiny), mm["ask"]), symbol=s_, tiny=tiny)
             ctx.check("C14:sides", same(lob.acq_price(1), mm["ask"]) and same(lob.acq_price(-1), mm["bid"])
                       and same(lob.liq_price(1), mm["bid"]) and same(lob.liq_price(-1), mm["ask"])
                       and same(lob.acq_price(0), (mm["ask"] + mm["bid"]) / 2)
